@@ -3,6 +3,8 @@
 //! evidence in the thorough tier).  Each subcommand prints one JSON object on stdout:
 //!   {"found": null | {...failing input...}, "evaluations": N, "distinct_nontrivial": M}
 mod c08;
+mod c10;
+mod c12;
 
 fn main() {
     let args: Vec<String> = std::env::args().collect();
@@ -10,6 +12,8 @@ fn main() {
     let rest: Vec<String> = args.iter().skip(2).cloned().collect();
     match sub {
         "c08" => c08::run(&rest),
+        "c10" => c10::run(&rest),
+        "c12" => c12::run(&rest),
         _ => {
             eprintln!("usage: kreplay <c08|...> [args]");
             std::process::exit(2);
